@@ -134,7 +134,7 @@ class World:
     def accept(self, i, l, topic, payload, retain, qos):
         n = len(self.accepted)
         self.accepted.append((n, topic, payload, retain, l.k if l else None, qos, i))
-        if payload == b"":
+        if retain and payload == b"":
             self.retained.pop(topic, None)
             self.retained_hist[topic].append((n, None))
         elif retain:
@@ -241,8 +241,6 @@ class World:
                 return None
             return self.do_publish(pi, l, topic, payload, retain, props, qos)
         if kind == "PUBREL":
-            if p[2] == "1":
-                return None                       # v5 PUBREL with properties: ignored (finding F13)
             l.expected_acks.append(("PUBCOMP", p[1]))
             if not l.recorded:
                 return "bad-pubrel"
@@ -278,12 +276,17 @@ class World:
                 l.deferred_end = bad
             return None
         if kind == "UNSUB":
+            reasons = []
             for f in [x for x in p[2].split(",") if x]:
                 path = unhx(f)
                 if path in l.subs:
                     del l.subs[path]
-                    l.expected_acks.append(("UNSUBACK", p[1]))
+                    reasons.append("0")
                     l.unsubbed = getattr(l, "unsubbed", []) + [(path, len(self.accepted))]
+                else:
+                    reasons.append("17")
+            # exactly one UNSUBACK per UNSUBSCRIBE, one reason per filter
+            l.expected_acks.append(("UNSUBACK", p[1], ",".join(reasons) if reasons else "-"))
             return None
         if kind == "PUBACK" or kind == "PUBREC":
             if not l.unacked or l.unacked[0][0] != int(p[1]):
@@ -661,6 +664,14 @@ def check_delivery(w, q):
             for (n, topic, payload, _r, _pub, _q, _i) in w.accepted:
                 if n >= since[p] and payload != b"" and topic_matches(topic, p):
                     k[(topic, payload)] += 1
+        # a subscription the session dropped earlier may have produced earlier (final) deliveries
+        # that cannot be told apart from those of the kept ones: skip such messages
+        dropped = set(p for x in chain for (p, _a) in getattr(x, "unsubbed", []))
+        ambiguous = set(key for key in set(got) | set(k) | set(final_prev)
+                        if any(topic_matches(key[0], strip_share(p)[1]) for p in dropped))
+        for key in ambiguous:
+            got.pop(key, None); k.pop(key, None); final_prev.pop(key, None)
+        w.skips["c08-ambiguous-message"] += len(ambiguous)
         for key, cnt in got.items():
             if cnt > k.get(key, 0) - final_prev.get(key, 0):
                 w.viol(l.at, "C08", "resumed link %d (%r): %r delivered %d times after resume; %d matching subscriptions, %d final deliveries before" % (
